@@ -73,7 +73,7 @@ def prune_cache(keep, max_entries=6):
     ents = []
     for e in os.listdir(CACHE):
         p = os.path.join(CACHE, e)
-        if os.path.isdir(p) and p != keep:
+        if os.path.isdir(p) and p != keep and len(e) == 24 and all(ch in "0123456789abcdef" for ch in e):
             ents.append((os.path.getmtime(p), p))
     ents.sort()
     while len(ents) > max_entries:
